@@ -147,7 +147,7 @@ PROPS["C16"] = dict(
     modules=["Proofs.C16", "Proofs.Findings.C16", "Proofs.C15Locks"],
     theorems=["Goflow.C16.inv_init", "Goflow.C16.inv_step", "Goflow.C16.inv_run", "Goflow.C16.publish_once",
               "Goflow.C16.single_system", "Goflow.C16.nothing_lost", "Goflow.Findings.C16.lost_update_possible",
-              "Goflow.C15Locks.maps_only_grow", "Goflow.C15Locks.lock_discipline"],
+              "Goflow.C15Locks.maps_only_grow", "Goflow.C15Locks.lock_discipline", "Goflow.C16.instrumented_store_atomic"],
     generators=[dict(name="C16", quick=1, thorough=1, subseeds=1)],
     count_all=True,
     harness=["impl"],
